@@ -6,6 +6,7 @@ From LokyV Require Model.KillLock Proofs.KillLockThm Lib.WorkerLib Gen.Worker Pr
 From LokyV Require Model.Wake Proofs.WakeThm.
 From LokyV Require Model.FailLoop Proofs.FailLoopThm.
 From LokyV Require Model.FeederPipe Proofs.FeederPipeThm.
+From LokyV Require Model.ForcedPop Proofs.ForcedPopThm.
 Import ListNotations.
 
 (* whatever happened before (a graceful shutdown included), shutdown(kill_workers=True) sets both flags *)
@@ -114,3 +115,20 @@ Example C06_h17_blocked_for_ever :
   let s := FeederPipe.run false [FeederPipe.FeederStep; FeederPipe.FeederStep; FeederPipe.KillAll; FeederPipe.CloseQueue] (FeederPipe.mkfp FeederPipe.Idle 2 false 1 2 true) in
   FeederPipe.th s = FeederPipe.Blocked /\ forall e, FeederPipe.step false s e = s.
 Proof. exact FeederPipeThm.h17_blocked_for_ever. Qed.
+
+(* ---- the forced-shutdown loop against the feeder thread (Model/ForcedPop.v; finding H20, fixed) ----
+   `while pending_work_items: popitem()` runs while the queue feeder thread pops from the same dict the items it fails to send;
+   between the loop's test and popitem() the dict can become empty.  The loop tolerates the KeyError (generated fact).  Hence,
+   whatever the feeder takes and whenever: the manager thread survives, every item is failed by the manager or taken (and failed) by
+   the feeder, the table is empty when the loop has ended.  On the pinned source popitem() was bare: the manager died before
+   kill_workers() -- the workers survived a forced shutdown (simulated schedule findings/H20_sim_replay.json). *)
+Theorem C06_forced_loop_survives_the_feeder :
+  forall n es, let s := ForcedPop.run forced_loop_tolerates_a_table_emptied_by_the_feeder es (ForcedPop.fstart n) in
+    ForcedPop.fphase s <> ForcedPop.LoopCrashed /\
+    ForcedPop.items s + ForcedPop.failed_by_manager s + ForcedPop.taken_by_feeder s = n /\
+    (ForcedPop.fphase s = ForcedPop.LoopDone -> ForcedPop.items s = 0).
+Proof. exact ForcedPopThm.forced_loop_survives_the_feeder. Qed.
+Print Assumptions C06_forced_loop_survives_the_feeder.
+Example C06_h20_keyerror :
+  ForcedPop.fphase (ForcedPop.run false [ForcedPop.MgrStep; ForcedPop.FeederPops; ForcedPop.MgrStep] (ForcedPop.fstart 1)) = ForcedPop.LoopCrashed.
+Proof. exact ForcedPopThm.h20_keyerror. Qed.
